@@ -28,16 +28,28 @@ def run(chk, scratch):
     chk.add_tlc("LockFileTimed with a ReleaseIfStale by the holder itself that stops its heartbeat (must violate LiveNeverStale)", r)
     if r.violated != "LiveNeverStale":
         raise vlib.Inconclusive("sensitivity self-test failed: LockFileTimed_sweep.cfg reported %s" % r.violated)
+    r = vlib.run_tlc(scratch, [SPEC], "LockFileTimed", "LockFileTimed_listfail.cfg", workers=4, timeout=300, fast=True)
+    vlib.tlc_must_pass(r, "LockFileTimed_listfail")
+    chk.add_tlc("LockFileTimed with an observer that falls back on the directory's age when its listing fails (must violate LiveNeverReportedStale)", r)
+    if r.violated != "LiveNeverReportedStale":
+        raise vlib.Inconclusive("sensitivity self-test failed: LockFileTimed_listfail.cfg reported %s" % r.violated)
     # 2. every death point of the holder (after each backend call of the acquisition and of the first heartbeat cycles),
     #    forced through the gate on both backends in model time
     dp, _ = common.record(vh, scratch, "c17", "deathpoints.ndjson", chk.seed, chk.tier, mode="deathpoints", timeout=900)
     # 3. real time on the OS backend: long holds under load, concurrent observers, deaths and recovery
     rounds = 40 if thorough else 6
     rt, _ = common.record(vh, scratch, "c17", "realtime.ndjson", chk.seed, chk.tier, mode="realtime", n=rounds, timeout=3000)
+    # 4. take-over, then hold: the lock an overriding contender won from a dead holder is held; four periods later another overriding contender must be refused
+    th = os.path.join(scratch, "c17-takeover.ndjson")
+    p = vlib.run_vh(vh, ["c17", "takeoverhold", "--out", th, "--dir", scratch, "--seed", chk.seed, "--n", 12 if thorough else 3], timeout=600)
+    if p.returncode != 0:
+        raise vlib.Inconclusive("c17 takeoverhold driver failed: " + (p.stderr or "")[-1500:])
     trace = os.path.join(scratch, "c17-trace.ndjson")
     with open(trace, "w") as out:
-        for f in (dp, rt):
-            out.write(open(f).read())
+        out.write(open(dp).read())
+        out.write("".join(line for line in open(rt) if '"op":"End"' not in line))
+        out.write(open(th).read())
+        out.write('{"op":"End"}\n')
     total = sum(1 for line in open(trace) if line.strip())
     r = vlib.run_tlc(scratch, [SPEC], "LockTimedTrace", "LockTimedTrace.cfg", workers=1, timeout=1800, deadlock=False,
                      extra_files=[(trace, "trace.ndjson")], fast=True)
@@ -61,9 +73,14 @@ def run(chk, scratch):
             chk.nontrivial += 1
         if v["id"] < 1000:
             rounds += 1
+        if v["id"] >= 5000:
+            chk.cov["take_over_then_hold_rounds"] = chk.cov.get("take_over_then_hold_rounds", 0) + 1
         for s in v["viol"]:
             if s == "suspect-live-lock-heartbeat-late":
                 suspects.append(v["id"])
+                continue
+            if v["id"] >= 5000:
+                chk.violation(s, "take-over then hold: %s" % events[v["id"] - 5001], {"events": [events[v["id"] - 5001]]})
                 continue
             ctx = [e for e in events if e.get("id") == v["id"] and e.get("op") != "Ctl"] if v["id"] < 1000 else [events[v["id"] - 1001]]
             if v["id"] < 1000:
